@@ -350,7 +350,9 @@ pub fn reference(cfg: &Config, side: Side, rules: &[Rule]) -> Result<BTreeSet<St
 
 /// Digest codes: 1, 2 (and any other small number) = {sha256: h(n)};
 /// 11 = {sha512: H(1)}; 12 = {sha256: h(1), sha512: H(1)}; 13 = {sha256: h(1), sha512: H(2)};
-/// 14 = {} (no algorithm). Distinct codes are distinct digest maps.
+/// 14 = {} (no algorithm); 15 = {sha256: h(1) without its last byte}; 16 = {sha256: no bytes};
+/// 17 = {sha256: h(1) plus one byte} - digests of which one is a prefix of the other.
+/// Distinct codes are distinct digest maps.
 fn code_desc(d: u8) -> in_toto::models::TargetDescription {
     use in_toto::crypto::{HashAlgorithm, HashValue};
     let mut m = in_toto::models::TargetDescription::new();
@@ -364,6 +366,19 @@ fn code_desc(d: u8) -> in_toto::models::TargetDescription {
             m.insert(HashAlgorithm::Sha512, HashValue::new(util::sha512(&[2])));
         }
         14 => {}
+        15 | 16 | 17 => {
+            let full = world::h(1);
+            let v = match d {
+                15 => full[..full.len() - 1].to_vec(),
+                16 => vec![],
+                _ => {
+                    let mut e = full.clone();
+                    e.push(0);
+                    e
+                }
+            };
+            m.insert(HashAlgorithm::Sha256, HashValue::new(v));
+        }
         n => return world::desc(n),
     }
     m
@@ -376,7 +391,7 @@ fn to_lib_arts(a: &Arts) -> world::Artifacts {
 /// Configurations about digest-map equality: one artifact on each side recorded with
 /// every pair of digest-map shapes.
 fn algorithm_configs() -> Vec<Config> {
-    let codes = [1u8, 2, 11, 12, 13, 14];
+    let codes = [1u8, 2, 11, 12, 13, 14, 15, 16, 17];
     let mut out = vec![];
     for x in codes {
         for y in codes {
@@ -854,7 +869,7 @@ pub fn run(tier: Tier) -> i32 {
 
     c.acc = acc;
     c.rule = format!(
-        "state = (artifact configuration, side, remaining queue); {} configurations = 125 item configurations over paths a,b,d/a in {{absent,deleted,created,unchanged,modified}} x {} referenced-step configurations; plus 72 digest-map-shape configurations (sha256 / sha512 / both / none on either side) and {n_odd} configurations over the paths .h, d/.h, A, da, dd/a, d (alone, next to a and d/a, all together; with and without a referenced step that has their twins); transition = append one of {} rules; queue observed through DISALLOW probes; non-trivial = configuration with at least one artifact",
+        "state = (artifact configuration, side, remaining queue); {} configurations = 125 item configurations over paths a,b,d/a in {{absent,deleted,created,unchanged,modified}} x {} referenced-step configurations; plus the digest-map-shape configurations (sha256 / sha512 / both / none, and a sha256 digest cut by a byte / of no bytes / longer by a byte, on either side) and {n_odd} configurations over the paths .h, d/.h, A, da, dd/a, d (alone, next to a and d/a, all together; with and without a referenced step that has their twins); transition = append one of {} rules; queue observed through DISALLOW probes; non-trivial = configuration with at least one artifact",
         configs.len(),
         others.len(),
         alphabet.len()
